@@ -64,6 +64,24 @@ def real_admits(regex_text, stream, n):
     return regex.fullmatch("(?:" + regex_text + ")" + regex.escape(stream[n:], literal_spaces=True), stream, timeout=60) is not None
 
 
+def att_mem_domain(w):
+    """Input domain of the $deref properties (C03 deref part, C06): an operand field that contains any of
+    '[', ']', '+', '*' is a memory operand as the operand normaliser emits it for objdump AT&T text (C09):
+        [ (%reg)? (+%reg*scale)? (+disp)? ]   scale in 1 2 4 8, disp = -?0x[0-9a-f]+ or decimal digits
+    Streams outside this domain (register without '%', '0x0x8', ...) are not objdump output."""
+    cols = w.colours
+    ch = lambda t: w.chars([ord(c) for c in t], cols)
+    lit = lambda t: w.lit(t, cols)
+    opt = lambda r: z3.Option(r)
+    reg = z3.Concat(lit("%"), z3.Plus(ch("abcdefghijklmnopqrstuvwxyz0123456789")))
+    disp = z3.Concat(opt(lit("-")), rx.union([z3.Concat(lit("0x"), z3.Plus(ch("0123456789abcdef"))), z3.Plus(ch("0123456789"))]))
+    mem = rx.concat([lit("["), opt(reg), opt(rx.concat([lit("+"), reg, lit("*"), ch("1248")])), opt(z3.Concat(lit("+"), disp)), lit("]")])
+    fch = w.chars([c for c in w.alphabet if chr(c) not in ",|"], cols)
+    special = z3.Concat(z3.Star(fch), ch("[]+*"), z3.Star(fch))
+    badfield = inter(special, comp(mem))
+    return comp(rx.concat([w.ANY, lit(","), badfield, lit(","), w.ANY]))
+
+
 def check_template(tpl):
     """-> result dict (picklable)"""
     from . import jasmapi
@@ -123,6 +141,8 @@ def check_template(tpl):
                 S1, S2 = M.sigma((1,)), M.sigma((2,))
                 K2 = z3.Star(S2)
                 WF12 = inter(sM.WF((1, 2)), z3.Concat(z3.Star(S1), K2))
+                if tpl.get("domain") == "att_mem":
+                    WF12 = inter(WF12, att_mem_domain(M))
                 LM = tM.lang(east, K2, (1,), (1, 2))
             if "AEM" in lem or "TWIN" in lem:
                 SM = sM.seq(pattern, K2, (1,))
